@@ -6,6 +6,7 @@ REPO=${VERIF_REPO:-/repo}
 HERE=$(cd "$(dirname "$0")" && pwd)
 OUT=${1:-$HERE/../.work/bin}; shift || true
 mkdir -p "$OUT" "$OUT/gen"
+OUT=$(cd "$OUT" && pwd)
 export GOFLAGS=-mod=mod GOPROXY=off GOSUMDB=off GOTOOLCHAIN=local GOARCH=amd64 GOAMD64=v1 CGO_ENABLED=${CGO_ENABLED:-0}
 # alternate go.mod: same requirements, lib replaced by the working tree
 sed -e 's#^module .*#module github.com/Azbesciak/RealDecisionMaker/httpClient#' "$REPO/httpClient/go.mod" > "$OUT/gen/httpClient.mod"
